@@ -21,7 +21,7 @@ def gen(rng, facts):
     g = rng.choice([0, 1000, 1000, 5000])
     dropping = rng.choice([0, 1, 0, 1, 2])      # 2 = UnboundedBlocking (monitor-only cases)
     c = Case(dropping=dropping, capk=rng.choice([8, 10, 12]), tinit=rng.choice([1, 2, 4]), soft=soft, hard=hard,
-             grace=g, loggers=loggers, sinks=[(0, []) for _ in range(ns)], facts=facts,
+             grace=g, loggers=loggers, sinks=[(0, [4095] if rng.random() < 0.15 else []) for _ in range(ns)], facts=facts,   # 4095: this sink's flush_sink() throws
              fiv=rng.choice([0, 0, 1000000, 5000000]))
     C = 1 << c.capk
     nt = rng.randint(1, 4)
@@ -141,6 +141,7 @@ def monitor(case, obs):
                 who = 'its own thread' if own else 'thread %d (smaller timestamp, ordering premises hold)' % d['thread']
                 if not w or w[0] >= p:
                     return 'flush_log() %d of thread %d returned but statement %d of %s, accepted before the call, was not yet written to sink %d' % (fi, f['thread'], i, who, k)
+                if 4095 in case.sinks[k][1]: continue     # a sink whose flush throws cannot be flushed; the others must be
                 if not any(w[0] < sf < p for (sf, kk) in tr.sflush if kk == k):
                     return 'flush_log() %d of thread %d returned but sink %d was not flushed after it received statement %d of %s' % (fi, f['thread'], k, i, who)
     return None
@@ -153,7 +154,7 @@ def nontrivial(case, obs):
     return any(any(d['outcome'] == 'accepted' and d['ret'] is not None and d['ret'] < f['start'] for d in tr.stmts.values()) for f in rets)
 
 
-RULE = ('sink_min_flush_interval 0 / 1 ms / 5 ms (virtual steady clock), 1-4 threads (+1 first-time thread), 1-3 recording sinks shared by 1-2 loggers in random patterns, blocking and dropping queues of 256/1024/4096 bytes, '
+RULE = ('sink_min_flush_interval 0 / 1 ms / 5 ms (virtual steady clock), 15% of the sinks with a flush_sink() that throws (the others must still be flushed), 1-4 threads (+1 first-time thread), 1-3 recording sinks shared by 1-2 loggers in random patterns, blocking and dropping queues of 256/1024/4096 bytes, '
         '35% of the cases with records of C/4..C/2 so that queues fill and flush requests are refused and retried; grace 0/1000/5000; flush_log() callers resumed at top level '
         'and at the yield points inside poll (Y1-Y8: around the clock read, between queue reads, in the batch loop, in the single-event branch, in the idle stages); '
         'statements and further flush requests of other threads injected at the same points; thread exits; each case ends with a drain; '
